@@ -1,5 +1,7 @@
 """Generic functional check of instruction families: every encoding row of the family, every listed
 architecture version, through the H-step harness."""
+import os
+
 from spec.isa import ISA
 from vf import step, known
 from vf.runner import UnitSpec
@@ -18,6 +20,20 @@ SPLIT = {
     'StrdImmediateT1': [('U', 2), ('W', 2)],
     'SubsPcLrArmA1': [('opcode', 16)], 'MsrRegisterSystemT1': [('mask', 16)], 'CpsThumbT2': [('imod', 4), ('M', 2)],
     'CpsArmA1': [('imod', 4), ('M', 2)],
+}
+
+
+# quick tier only: rows whose obligations are solver-bound (a handful of paths, minutes of solver time: sums of absolute
+# differences, dual / long multiplies, bit-field extraction with symbolic lsb/width under a 34-way register multiplexer)
+# run with their REGISTER-NUMBER fields pinned to distinct registers; all operand values, flags, mode and the remaining
+# fields stay symbolic.  Register-number generality of these rows is covered by the thorough tier and by the operand
+# rows of C06/C07.
+_R4 = {'Rn': 1, 'Rm': 2, 'Ra': 3, 'Rd': 4}
+_RL = {'Rn': 1, 'Rm': 2, 'RdLo': 3, 'RdHi': 4}
+QUICK_PIN = {
+    'Usada8T1': _R4, 'Usada8A1': _R4, 'SmladT1': _R4, 'SmladA1': _R4, 'SmlsdT1': _R4, 'SmlsdA1': _R4,
+    'SmlalxyT1': _RL, 'SmlalxyA1': _RL, 'SmlaldT1': _RL, 'SmlaldA1': _RL, 'SmlsldT1': _RL, 'SmlsldA1': _RL,
+    'SbfxT1': {'Rn': 1, 'Rd': 2}, 'SbfxA1': {'Rn': 1, 'Rd': 2},
 }
 
 
@@ -76,8 +92,14 @@ def family_units(families, archs, tables, only=None, sec=True, virt=False, tag='
             kw.update(stepkw)
             if name in PER_ROW:
                 kw.update(PER_ROW[name])
+            pin_tag = ''
+            if os.environ.get('VERIF_TIER_ACTIVE', 'quick') == 'quick' and name in QUICK_PIN and not kw.get('fix') \
+                    and not kw.get('reg_values'):
+                have = {n for k, n, w, v in E.items if k == 'f'}
+                kw['fix'] = {k: v for k, v in QUICK_PIN[name].items() if k in have}
+                pin_tag = '/regs-pinned'
             for suf, kwc in split_cases(name, kw):
-                u = UnitSpec('step/%s/v%d%s%s' % (name, arch, tag, suf), 'vf.step', 'mk_step', kwc, max_seconds=900,
+                u = UnitSpec('step/%s/v%d%s%s%s' % (name, arch, tag, pin_tag, suf), 'vf.step', 'mk_step', kwc, max_seconds=900,
                              weight=2.0 if 'RegisterA1' in name or 'T2' in name else 1.0)
                 if suf:
                     u.allow_vacuous = True  # a case may be empty (excluded by the row's guard)
